@@ -1,7 +1,8 @@
 (* C05  Type hints are translated faithfully and compositionally (back end: API type -> Safe-DS type text). *)
 From Coq Require Import List String Ascii ZArith. Import ListNotations.
 From Coq Require Import List Bool Permutation.
-From SV Require Import Lib.Str Model.Types Model.Api Model.Back Proofs.BackProofs Proofs.OrderProofs.
+From SV Require Import Lib.Str Model.Types Model.Api Model.Back Model.View Model.Front Spec.TypeMap Proofs.BackProofs Proofs.OrderProofs
+     Proofs.TypeMapProofs.
 
 (* the text written for a type is the state-free structural function tstr of the type: the same in every position,
    at every nesting depth, whatever has been rendered before *)
@@ -26,7 +27,20 @@ Proof. exact finish_union_set. Qed.
 Theorem C05_union_single : forall b x, finish_union b [x] = x.
 Proof. exact finish_union_single. Qed.
 
+(* END TO END (analyzer and generator composed): for every annotation of the documented grammar (c05_dom: scalars, None,
+   list/Sequence/Collection, set, tuple, dict/Mapping, unions without literal members, Literal, Callable, classes, generic
+   classes, type variables, Any; at any nesting depth), the analyzer translates the mypy type without error and the
+   generator writes exactly the documented mapping `ref` of the annotation (Spec/TypeMap.v), in every environment of
+   imports and aliases and in every position *)
+Theorem C05_annotation_to_text : forall env nc m, c05_dom m = true ->
+  exists t, mt1 env m = Ok (t, false) /\ tstr nc t = ref nc m.
+Proof. exact annotation_text. Qed.
+Theorem C05_annotation_to_generated_text : forall classes rmap env nc m t amb s x s',
+  c05_dom m = true -> mt1 env m = Ok (t, amb) -> type_string classes rmap nc t s = Ok (x, s') -> x = ref nc m.
+Proof. exact annotation_text_generated. Qed.
 Print Assumptions C05_type_text_is_structural.
+Print Assumptions C05_annotation_to_text.
+Print Assumptions C05_annotation_to_generated_text.
 Print Assumptions C05_compositional.
 Print Assumptions C05_union_is_a_set.
 Print Assumptions C05_union_single.
